@@ -6,6 +6,7 @@ import Arimaa.Gen.Bridge.GameState_is_passing_like_action
 import Arimaa.Gen.Bridge.GameState_take_action
 import Arimaa.Gen.Bridge.GameState_valid_actions
 import Arimaa.Gen.Bridge.GameState_valid_actions_
+import Arimaa.Gen.Bridge.GameState_valid_actions_no_rep
 
 /-!
 # C06 — the property at the level of the REGENERATED code
@@ -43,5 +44,20 @@ theorem C06_code_offered (s : GameState) (r : List Action)
     (h : GameState_valid_actions s = .ok r) : r = s.validActions := by
   simp only [bridge_GameState_valid_actions] at h
   exact (C06_value_of_ok (RsAgree.valid_actions_eq s) h).2
+
+theorem C06_code_rule_only (s : GameState) (l : List Action) (hl : GameState_valid_actions_no_rep s = .ok l) :
+    l = s.validActionsNoRep := by
+  simp only [bridge_GameState_valid_actions_no_rep] at hl
+  exact (C06_value_of_ok (RsAgree.valid_actions_no_rep_direct s) hl).2
+
+/-- **C06 for the code as it is now**: the list of the regenerated `valid_actions` is a sublist, in the same
+order, of the list of the regenerated `valid_actions_no_rep`, and every action withheld ends the turn -/
+theorem C06_code_sublist_and_withheld (s : GameState) (pp : PlayPhase) (hph : s.phase = .play pp)
+    (l l' : List Action) (hl : GameState_valid_actions s = .ok l) (hl' : GameState_valid_actions_no_rep s = .ok l') :
+    List.Sublist l l' ∧ ∀ a ∈ l', a ∉ l → endsTurn pp a = true := by
+  have h1 := C06_code_offered s l hl
+  have h2 := C06_code_rule_only s l' hl'
+  subst h1 h2
+  exact ⟨C06_sublist s, fun a hin hout => (C06_only_turn_ending_withheld s pp hph a hin hout).2⟩
 
 end Arimaa
